@@ -33,7 +33,7 @@ def harness_bins(name, src, cfgs, tape=None, extra_flags=(), extra_objs=(), deps
 
 def quick_cfgs():
     """All five host backends (backend-specific helper macros differ), with three different share tuples."""
-    return [Cfg("asm", 4, 2, 4), Cfg("c32", 3, 3, 3), Cfg("c64", 2, 1, 2), Cfg("dxor", 4, 2, 4), Cfg("generic", 4, 2, 4)]
+    return [Cfg("asm", 4, 2, 4), Cfg("c32", 3, 3, 3), Cfg("c64", 2, 1, 2), Cfg("dxor", 4, 4, 4), Cfg("generic", 4, 2, 4)]
 
 
 def five_backends():
